@@ -262,3 +262,53 @@ Fixpoint hist_loop (bn : Z -> Z) (nbin : Z) (s : list Z) (hist : list Z) : list 
       else hist_loop bn nbin ss hist
   end.
 Definition hist_norev (bn : Z -> Z) (nbin : Z) (s : list Z) : list Z := hist_loop bn nbin s (zeros nbin).
+
+(* ------------------------------------------------------------ the Binner object and its cache *)
+(* Binner.__init__ keeps a float64 copy of the data (util.py:100) and sort_index = None (util.py:104);
+   _get_sort_index (util.py:299-303) computes the stable argsort once and keeps it on the object for
+   all later dohist calls; dohist starts with self.clear(), so nothing else survives a call.
+   histogram() (util.py:582-596) builds a new Binner for every call. *)
+Record binner := mkBinner { b_x : list float; b_sort : option (list Z) }.
+Definition binner_new (x : list float) : binner := mkBinner x None.
+
+(* histogram with the sort index handed in (what dohist does with the cached index) *)
+Definition histogram_with (eng : engine) (s : list Z) (x : list float) (lo hi : option float) (m : mode)
+  : result outcome :=
+  match limits x s lo hi with
+  | Err e => Err e
+  | Ok (dmin, dmax, w) =>
+    match derive dmin dmax m with
+    | Err e => Err e
+    | Ok (bsize, nbin) =>
+      if nbin <? 0 then Err EValue
+      else
+        let bn := binnum x dmin bsize in
+        let '(hist, rev) := match eng with EngC => chist bn nbin w | EngPy => pyhist bn nbin w end in
+        Ok (mkOut (mkParams dmin dmax bsize nbin) s w hist rev)
+    end
+  end.
+
+(* one dohist call on a Binner object: new object state and result *)
+Definition dohist (eng : engine) (a : api) (b : binner) (lo hi : option float) (k : kw) (nb : option Z)
+  : binner * result outcome :=
+  let s := match b_sort b with Some s => s | None => argsort (b_x b) end in
+  (mkBinner (b_x b) (Some s),
+   match resolve a k nb with
+   | Some m => histogram_with eng s (b_x b) lo hi m
+   | None => match limits (b_x b) s lo hi with Err e => Err e | Ok _ => Err EValue end
+   end).
+
+(* a call: which engine is switched on, and the keywords *)
+Record call := mkCall { c_eng : engine; c_lo : option float; c_hi : option float; c_kw : kw; c_nbin : option Z }.
+
+(* a sequence of dohist calls on one Binner object *)
+Fixpoint run_binner (b : binner) (cs : list call) : list (result outcome) :=
+  match cs with
+  | [] => []
+  | c :: t => let '(b', r) := dohist (c_eng c) ApiBinner b (c_lo c) (c_hi c) (c_kw c) (c_nbin c) in
+              r :: run_binner b' t
+  end.
+
+(* esutil.stat.histogram(data, ...): a fresh Binner per call *)
+Definition histogram_call (x : list float) (c : call) : result outcome :=
+  snd (dohist (c_eng c) ApiHistogram (binner_new x) (c_lo c) (c_hi c) (c_kw c) (c_nbin c)).
